@@ -121,10 +121,12 @@ class C03(Spec):
     def extra(self, ctx, cases, outs):
         import c03_e2e
         goals, nh, nops = c03_e2e.run(ctx)
+        cnh, cnops = c03_e2e.run_cpp_callbacks(ctx)
         fails = run_shards(self.prop, self.header, goals) if goals else []
         if fails and not ctx.violations:
             ctx.violation("e2e:corr", {"broken": "end-to-end lifecycle history does not match Own/Model.v: " + goals[fails[0]][:400]}, False)
         return {"obligations": len(goals), "discharged": len(goals) - len(fails), "e2e_histories": nh, "e2e_operations": nops,
+                "cpp_callback_histories": cnh, "cpp_callback_operations": cnops,
                 "e2e_sanitizer": "gcc -fsanitize=address (incl. LeakSanitizer) over the macro-built staticlib"}
 
 
